@@ -8,6 +8,7 @@
 -/
 import SA.Proofs.HandshakeComplete
 import SA.Model.Security
+import SA.Gen.PkgVars
 namespace SA.Handshake
 
 /-! ### helpers (not obligations) -/
@@ -640,3 +641,15 @@ end SA.Handshake
 #print axioms SA.Handshake.C06_client_admits_every_wellformed
 #print axioms SA.Handshake.C06_admits_exactly
 #print axioms SA.Handshake.C06_renderer_matches_client
+
+namespace SA.PkgState
+/-- **no_hidden_process_state**: the models of this property are functions of their arguments and of the objects they are
+    handed; the packages they model keep no package-level variables besides these (regenerated inventory: error
+    sentinels, tables, compiled patterns, the two session time-outs).  A new package-level variable — a counter, a cache, a
+    scratch buffer, a shared map, a registry — would make later calls depend on earlier ones, or concurrent calls on each
+    other, outside anything a per-call comparison of model and code can see. -/
+theorem C06_no_hidden_process_state :
+    Gen.pkgVarNames_socketace = ["SupportedProtocolVersions"] := by decide
+end SA.PkgState
+
+#print axioms SA.PkgState.C06_no_hidden_process_state
